@@ -109,6 +109,10 @@ def case_generator(name, opts, dtype, backend):
             registry.instantiate(name, opts, other_t, num_threads=2, shape=shape)
             fn, aux = registry.instantiate(name, opts, real_t, num_threads=False, shape=shape)
             closed = {k: aux[k] for k in sp.get("closed_over", [])}
+            import inspect
+
+            prm = list(inspect.signature(fn).parameters.values())
+            positional_ok = bool(prm) and all(q.kind == q.POSITIONAL_OR_KEYWORD for q in prm)  # raw generated kernels are keyword-only
             for binding in BINDINGS:
                 # the SAME array objects are passed for every pattern (re-filled in place): a kernel object
                 # is called repeatedly with identical scratch / output arrays, as the simulators do
@@ -120,6 +124,8 @@ def case_generator(name, opts, dtype, backend):
                         variants = [kernelspec.SCALAR_VARIANTS[0]]
                     elif pattern == "dense" and binding == "contiguous":
                         variants = kernelspec.SCALAR_VARIANTS
+                    if positional_ok and pattern == "dense":
+                        variants = list(variants) + ["dyadic:float:positional"]
                     else:
                         variants = [kernelspec.SCALAR_VARIANTS[(pi + 3 * BINDINGS.index(binding)) % len(kernelspec.SCALAR_VARIANTS)]]
                     for variant in variants:
@@ -143,7 +149,11 @@ def case_generator(name, opts, dtype, backend):
                         view_pre = {a: v.copy() for a, v in views.items()}
                         for b in closed.values():
                             b[...] = np.nan  # scratch the generator closed over: contents must not matter
-                        fn(**views, **s_pass)
+                        if variant.endswith(":positional"):
+                            # the wrapper closures have a documented parameter order: a positional call must mean the same
+                            fn(*[views[a] if a in views else s_pass[a] for a in kernelspec.positional_order(name, opts, sp)])
+                        else:
+                            fn(**views, **s_pass)
                         trans += 1
                         expected = sp["ref"](A, s_mean, aux)
                         for arg, kind, role in sp["arrays"]:
@@ -208,6 +218,6 @@ def run(r) -> None:
                 cases.append(dict(name=name, opts=opts, dtype=dt, backend="jit"))
     cases.sort(key=lambda c: (c["backend"] != "jit", "3d" not in c["name"]))
     r.run_cases("generators", "generator", cases)
-    r.bounds = {"generators_x_options": len(registry.entries()), "dtypes": 2, "shapes_per_generator": 4, "bindings": BINDINGS, "patterns": PATTERNS, "scalar_arguments": kernelspec.SCALAR_VARIANTS, "backends": ["interp"] if quick else ["interp", "jit"]}
+    r.bounds = {"generators_x_options": len(registry.entries()), "dtypes": 2, "shapes_per_generator": 4, "bindings": BINDINGS, "patterns": PATTERNS, "scalar_arguments": kernelspec.SCALAR_VARIANTS, "call_styles": ["keyword", "positional (wrapper closures)"], "backends": ["interp"] if quick else ["interp", "jit"]}
     r.extra["rule"] = "one state per (generator option tuple, dtype, shape, binding, pattern, array argument): value on the documented region vs closed form, raw bytes everywhere else"
     r.assumptions = ["quick tier executes the captured kernels on the interpreter (bound to the generated code by conformance replay, incl. strided bindings); thorough tier repeats on the JIT back end (4-D kernels: interpreter only)"]
